@@ -122,13 +122,13 @@ var registry = map[string]*Property{
 		},
 	},
 	"C04": {
-		Decided:    "Binary typed-null bytes written equal the Ion 1.0 table (TAB-TYPECODE, writer obligations); text typed-null spellings are the 13 Ion type names (TAB-NULLKW, writer obligations); the needs-escaping tests of strings, symbols and clobs cover delimiter, backslash, control characters and non-ASCII for clobs (TAB-ESCAPE, predicate obligations); keywords are quoted when written as symbols (TAB-KEYWORD); every opened value/container/annotation wrapper is closed on each success path (ORD-VALUE); version marker before symbol table before values, fixed table before the first value (ORD-LSTFIRST).",
+		Decided:    "Binary typed-null bytes written equal the Ion 1.0 table (TAB-TYPECODE, writer obligations); text typed-null spellings are the 13 Ion type names (TAB-NULLKW, writer obligations); every single-letter escape the text writer spells denotes the written byte in the Ion 1.0 escape table, and the needs-escaping tests of strings, symbols and clobs cover delimiter, backslash, control characters and non-ASCII for clobs (TAB-ESCAPE, writer-vs-spec and predicate obligations); keywords are quoted when written as symbols (TAB-KEYWORD); every opened value/container/annotation wrapper is closed on each success path (ORD-VALUE); version marker before symbol table before values, fixed table before the first value (ORD-LSTFIRST).",
 		Necessary:  "Each clause is checked against the specification embedded in the checker, not against this repository's reader: a wrong null byte or name, a raw delimiter, an unquoted keyword, an unclosed wrapper (declared length never patched) or a table after its values is ill-formed or denotes another value under any conforming decoder.",
 		NotDecided: "each codec's own length function (TAB-LENPAY not built), negative symbol IDs (finding F25, NUM-NARROW not built), separators and number formatting",
 		Technique:  tabTech + "; CFG/SSA pairing for ORD",
 		DesignRef:  "DESIGN.md §3.4, §3.5, §4 C04",
 		Rules: []Rule{
-			only(rTypecode, 13, whatHas("binaryNulls[")), only(rNullKW, 13, whatHas("writer:")), only(rEscape, 9, whatHas("escapes when")), rKeyword, rOrdValue, rOrdLstFirst,
+			only(rTypecode, 13, whatHas("binaryNulls[")), only(rNullKW, 13, whatHas("writer:")), only(rEscape, 20, whatHas("escapes when", "writer-vs-spec:")), rKeyword, rOrdValue, rOrdLstFirst,
 		},
 	},
 	"C05": {NAReason: "The structural clause identified for this property (OWN-TEXTAUTH: at every place the binary writer turns a token into an ID the token's text wins over the source SID) was not built in this revision; the remaining content (equivalence of whole documents across formats and tables) quantifies over runtime values that no static rule here can bound. Findings F5 and F6 of DESIGN §6 remain open and are not decided by any check."},
